@@ -365,6 +365,10 @@ def p_eq(a, b):
     bv = to_bits(d)
     if bv is not None and any(x == 1 for x in bv):
         return F
+    if bv is not None:
+        live = [x for x in bv if x != 0]
+        if len(live) == 1:
+            return p_not(('bit', live[0]))        # a single possibly-set bit: `x & 0x80000000` == 0  <=>  not bit 31
     n = neg(d)
     if repr(n) < repr(d):
         d = n
